@@ -12,7 +12,7 @@ ID = "C19"
 ISOLATE = True  # end-to-end solver calls: run every case in a killable child
 RULE = ("case = generated database x hole mode (1 reads only in the neutral region, 2 reads everywhere but gene+pseudogene, "
         "3 covered locus but average depth below a raised min_avg_coverage, 4 reads over the pseudogene only, 5 empty neutral region, "
-        "6 control) x route (profile BAM, profile file, user-supplied structure with/without a profile) x output format "
+        "6 control, 7 reads that end exactly at / start right after the locus, 8 reads only between gene and pseudogene) x route (profile BAM, profile file, user-supplied structure with/without a profile) x output format "
         "(none, .aldy, .vcf, .simple, is_simple) x single/multi-gene call; non-trivial = modes 1-5; distinct = case JSON")
 ASSUMPTIONS = [
     "mode 4 is judged only for databases with a pseudogene and a whole-gene deletion allele and an estimated structure (the statement's wording)",
@@ -58,6 +58,20 @@ def run_case(case):
         params["min_avg_coverage"] = 2 * (rl // step) * 3  # well above the sample's average depth
     elif mode == 4:
         reads = sim.sample_reads(two, rl, step, skip=("gene",))
+    elif mode == 7:
+        # reads that end exactly at the first base of the locus / start right after its last base: no base of the locus is covered
+        wide = gene.get_wide_region()
+        reads = sim.sample_reads(two, rl, step, skip=("gene", "pseudo"))
+        reads += sim.tile("adjL", max(0, wide.start - 3 * rl), wide.start, {}, rl, step)
+        reads += sim.tile("adjR", wide.end + 1, wide.end + 1 + 2 * rl, {}, rl, step)
+    elif mode == 8:
+        # reads only in the stretch between the gene and its pseudogene (inside the fetch window, outside every region)
+        reads = sim.sample_reads(two, rl, step, skip=("gene", "pseudo"))
+        if has_p:
+            ends = sorted([(min(r.start for r in g.values()), max(r.end for r in g.values())) for g in gene.regions])
+            lo_, hi_ = ends[0][1] + 1, ends[1][0] - 1
+            if hi_ - lo_ > 2 * rl:
+                reads += sim.tile("gap", lo_, hi_, {}, rl, step)
     elif mode == 5:
         reads = sim.sample_reads(two, rl, step, skip=("neutral",))
     else:
@@ -104,11 +118,11 @@ def run_case(case):
     text = open(outpath).read() if outpath else ""
     sols = [s for v in (res or {}).values() for s in v]
     viol = []
-    must_fail = mode in (1, 2, 3) or (mode == 5 and not user_cn) or (mode == 4 and not has_p)
+    must_fail = mode in (1, 2, 3, 7, 8) or (mode == 5 and not user_cn) or (mode == 4 and not has_p)
     ngenes = 2 if case["multi"] else 1
     if must_fail:
         if sols:
-            viol.append(V(f"call-from-no-data:mode{mode if mode != 2 else 1}:{'usercn' if user_cn else 'estimated'}",
+            viol.append(V(f"call-from-no-data:mode{mode if mode not in (2,) else 1}:{'usercn' if user_cn else 'estimated'}",
                           diplotypes=[s.get_major_diplotype() for s in sols][:3], route=route, mode=mode))
         elif not case["multi"] and exc is None:
             viol.append(V(f"no-error:mode{mode}", route=route))
@@ -149,7 +163,7 @@ def strategy(tier):
     return st.fixed_dictionaries({
         "db": dbs,
         "build": st.sampled_from(["hg19", "hg38"]),
-        "mode": st.sampled_from([1, 1, 2, 3, 3, 4, 4, 5, 6]),
+        "mode": st.sampled_from([1, 7, 2, 3, 8, 4, 4, 5, 6, 3, 7]),
         "route": st.sampled_from(ROUTES),
         "out": st.sampled_from(OUTS),
         "multi": st.sampled_from([False, False, True]),
